@@ -5,6 +5,7 @@ package rules
 import (
 	"fmt"
 	"go/types"
+	"sort"
 	"strings"
 
 	"golang.org/x/tools/go/ssa"
@@ -32,6 +33,14 @@ type afCtx struct {
 	violated  bool
 	memo      map[string][]afOutcome
 	overflow  bool
+	guard     map[afCall]*afGuard // RENAMEGUARD results per publishing call
+}
+
+type afGuard struct {
+	reached    bool
+	early      string // witness path reaching the rename before stage 4
+	earlyStage int
+	failed     map[int]string // step id -> witness path on which its error is not known nil at the rename
 }
 
 type afCall struct {
@@ -256,6 +265,7 @@ func (a *afCtx) check() {
 	a.stepID = map[afCall]int{}
 	a.relevant = map[*frame]bool{}
 	a.memo = map[string][]afOutcome{}
+	a.guard = map[afCall]*afGuard{}
 	seenOK := map[string]bool{}
 	inPlace := false
 
@@ -396,7 +406,7 @@ func (a *afCtx) check() {
 			continue
 		}
 		if _, has := errorValue(call); !has {
-			if h := call.Call.StaticCallee(); h != nil && isOwn(P, h) {
+			if h := ir.Callee(call.Call); h != nil && isOwn(P, h) {
 				a.violated = true
 				c.Violation(s.fn, P.InstrPos(call), "helper "+h.Name()+" cannot report failure", "the helper performs steps of the atomic write but returns no error")
 			}
@@ -429,26 +439,76 @@ func (a *afCtx) check() {
 	}
 }
 
-// automaton state: "<stage>|<temp file id>|<id of the last completed step>"
-func afEnc(stage int, file string, last int) string {
-	return fmt.Sprintf("%d|%s|%d", stage, file, last)
+// automaton state: "<stage>|<temp file id>|<id of the last completed step>|<pending>"
+// pending: comma-separated ids (into a.steps) of write/sync/close calls (or of
+// helper calls standing for them) that have executed on this path and whose
+// error is not yet known to be nil.
+func afEnc(stage int, file string, last int, pend []int) string {
+	ps := make([]string, len(pend))
+	for i, p := range pend {
+		ps[i] = fmt.Sprint(p)
+	}
+	return fmt.Sprintf("%d|%s|%d|%s", stage, file, last, strings.Join(ps, ","))
 }
 
-func afDec(aux string) (stage int, file string, last int) {
+func afDec(aux string) (stage int, file string, last int, pend []int) {
 	last = -1
 	if aux == "" {
 		return
 	}
-	p := strings.SplitN(aux, "|", 3)
-	if len(p) == 3 {
+	p := strings.SplitN(aux, "|", 4)
+	if len(p) == 4 {
 		fmt.Sscanf(p[0], "%d", &stage)
 		file = p[1]
 		fmt.Sscanf(p[2], "%d", &last)
+		if p[3] != "" {
+			for _, x := range strings.Split(p[3], ",") {
+				n := 0
+				fmt.Sscanf(x, "%d", &n)
+				pend = append(pend, n)
+			}
+		}
 	}
 	return
 }
 
+func addPend(pend []int, id int) []int {
+	for _, p := range pend {
+		if p == id {
+			return pend
+		}
+	}
+	out := append(append([]int(nil), pend...), id)
+	sort.Ints(out)
+	return out
+}
+
 func fileID(f fval) string { return fmt.Sprintf("%p:%s", f.fr, f.v.Name()) }
+
+// confirm drops from pend the steps of frame fr whose error is known nil in st.
+func (a *afCtx) confirm(st *pstate, fr *frame, pend []int) []int {
+	var out []int
+	for _, id := range pend {
+		k := a.steps[id]
+		if k.fr == fr {
+			if e, _ := errorValue(k.call); e != nil && nilness(st, e) == triNo {
+				continue
+			}
+		}
+		out = append(out, id)
+	}
+	return out
+}
+
+// publishes: call makes the current temp file visible under the final name.
+func (a *afCtx) publishes(call *ssa.Call, fr *frame) bool {
+	args := call.Call.Args
+	switch staticID(call) {
+	case "os.Rename", "os.Link", "os.Symlink":
+		return len(args) == 2 && a.isFinal(args[1], fr)
+	}
+	return false
+}
 
 // step advances the automaton over one call executed in frame fr.
 func (a *afCtx) step(st *pstate, call *ssa.Call, fr *frame) {
@@ -457,30 +517,49 @@ func (a *afCtx) step(st *pstate, call *ssa.Call, fr *frame) {
 	if !isStep {
 		return
 	}
-	stage, cur, _ := afDec(st.aux)
+	stage, cur, last, pend := afDec(st.aux)
 	args := call.Call.Args
+	// RENAMEGUARD: the rename must be unreachable unless write, sync and close have all run and succeeded
+	if a.publishes(call, fr) {
+		pend = a.confirm(st, fr, pend)
+		g := a.guard[key]
+		if g == nil {
+			g = &afGuard{failed: map[int]string{}}
+			a.guard[key] = g
+		}
+		g.reached = true
+		if stage != 4 && g.early == "" {
+			g.earlyStage, g.early = stage, st.pathString()
+		}
+		for _, id := range pend {
+			if _, ok := g.failed[id]; !ok {
+				g.failed[id] = st.pathString()
+			}
+		}
+	}
 	switch staticID(call) {
 	case "os.CreateTemp", "io/ioutil.TempFile":
 		if ex := extractOf(call, 0); ex != nil {
-			st.aux = afEnc(1, fileID(fval{ex, fr}), sid)
+			st.aux = afEnc(1, fileID(fval{ex, fr}), sid, nil)
 		}
 	case "(*os.File).Write", "io.Copy":
 		if f, ok := a.writeOf[key]; ok && stage >= 1 && fileID(f) == cur {
-			st.aux = afEnc(2, cur, sid) // (a write after Sync needs a new Sync)
+			st.aux = afEnc(2, cur, sid, addPend(pend, sid)) // (a write after Sync needs a new Sync)
 		}
 	case "(*os.File).Sync":
 		if f, ok := a.tempOf(args[0], fr); ok && stage == 2 && fileID(f) == cur {
-			st.aux = afEnc(3, cur, sid)
+			st.aux = afEnc(3, cur, sid, addPend(pend, sid))
 		}
 	case "(*os.File).Close":
 		if f, ok := a.tempOf(args[0], fr); ok && stage == 3 && fileID(f) == cur {
-			st.aux = afEnc(4, cur, sid)
+			st.aux = afEnc(4, cur, sid, addPend(pend, sid))
 		}
 	case "os.Rename":
 		if f, ok := a.tempNameOf(args[0], fr); ok && stage == 4 && fileID(f) == cur && a.isFinal(args[1], fr) {
-			st.aux = afEnc(5, cur, sid)
+			st.aux = afEnc(5, cur, sid, pend)
 		}
 	}
+	_ = last
 }
 
 // inline returns the feasible outcomes (automaton state, nil-ness of the
@@ -497,7 +576,11 @@ func (a *afCtx) inline(k *frame, aux string) []afOutcome {
 	w := a.walker(k)
 	w.initAux = aux
 	w.onReturn = func(st *pstate, r *ssa.Return) {
-		o := afOutcome{aux: st.aux}
+		stage, cur, last, pend := afDec(st.aux)
+		o := afOutcome{aux: afEnc(stage, cur, last, a.confirm(st, k, pend))}
+		if st.aux == "" {
+			o.aux = ""
+		}
 		if ei >= 0 && ei < len(r.Results) {
 			o.err = nilness(st, r.Results[ei])
 		}
@@ -526,10 +609,47 @@ func (a *afCtx) walker(fr *frame) *pwalker {
 		if k == nil || !a.relevant[k] {
 			return nil
 		}
+		// what is known about the steps of this frame must be settled before
+		// descending: the helper cannot see this frame's error values
+		in := st.aux
+		if in != "" {
+			stage, cur, last, pend := afDec(in)
+			in = afEnc(stage, cur, last, a.confirm(st, fr, pend))
+		}
+		// the helper call stands for the steps still pending inside it
+		self := -1
+		if _, has := errorValue(call); has {
+			key := afCall{call, fr}
+			if id, ok := a.stepID[key]; ok {
+				self = id
+			} else {
+				self = len(a.steps)
+				a.stepID[key] = self
+				a.steps = append(a.steps, key)
+			}
+		}
 		outs := []*pstate{}
-		for _, o := range a.inline(k, st.aux) {
+		for _, o := range a.inline(k, in) {
 			s := st.clone()
 			s.aux = o.aux
+			if o.aux != "" {
+				stage, cur, last, pend := afDec(o.aux)
+				var np []int
+				for _, id := range pend {
+					inside := false
+					for f := a.steps[id].fr; f != nil; f = f.up {
+						if f == k {
+							inside = true
+						}
+					}
+					if inside && self >= 0 {
+						np = addPend(np, self) // failure of the inner step = failure of the helper call (checked by the error-drop clause)
+					} else {
+						np = addPend(np, id)
+					}
+				}
+				s.aux = afEnc(stage, cur, last, np)
+			}
 			if o.err != triUnknown {
 				s.facts[call] = o.err // for a tuple the walker hands it to the error Extract
 			}
@@ -570,7 +690,7 @@ func (a *afCtx) sequence() {
 				return
 			}
 		}
-		stage, _, last := afDec(st.aux)
+		stage, _, last, _ := afDec(st.aux)
 		if stage == 5 {
 			rr.complete = true
 			return
@@ -584,6 +704,45 @@ func (a *afCtx) sequence() {
 	if w.overflow || a.overflow {
 		a.undecided = true
 		c.Undecided(fn, P.Pos(fn.Pos()), "paths", "path exploration exceeded its bound")
+	}
+	// RENAMEGUARD
+	var gkeys []afCall
+	for k := range a.guard {
+		gkeys = append(gkeys, k)
+	}
+	sort.Slice(gkeys, func(i, j int) bool { return gkeys[i].call.Pos() < gkeys[j].call.Pos() })
+	for _, k := range gkeys {
+		g := a.guard[k]
+		at, pos := k.fr.fn, P.InstrPos(k.call)
+		report := func(construct, msg, path string) {
+			if a.escapes {
+				a.undecided = true
+				c.Undecided(at, pos, construct, msg+" — but the temp file is handed to code the rule does not model", path)
+			} else {
+				a.violated = true
+				c.Violation(at, pos, construct, msg, path)
+			}
+		}
+		bad := false
+		if g.early != "" {
+			bad = true
+			report("rename reachable without "+afSteps[g.earlyStage],
+				fmt.Sprintf("the temp file can be renamed onto the final path on a path (%s) on which only %d of the steps create, write, sync, close have been performed (next missing: %s): an incomplete file becomes visible under the node's name", g.early, g.earlyStage, afSteps[g.earlyStage]), g.early)
+		}
+		var ids []int
+		for id := range g.failed {
+			ids = append(ids, id)
+		}
+		sort.Ints(ids)
+		for _, id := range ids {
+			bad = true
+			sc := a.steps[id]
+			report("rename not guarded by success of "+callName(sc.call),
+				fmt.Sprintf("the rename onto the final path is reachable on a path (%s) on which the error of %s (%s) is not known to be nil: after a failed or short write/sync/close a truncated file lands under the node's name and the exists-shortcut never repairs it", g.failed[id], callName(sc.call), P.InstrPos(sc.call)), g.failed[id])
+		}
+		if !bad {
+			c.OK(pos, "rename guard in "+ir.FuncName(at), "every feasible path to the rename has a nil error from write, sync and close", false)
+		}
 	}
 	successes := 0
 	for _, r := range order {
